@@ -45,6 +45,7 @@
 package interp
 
 import (
+	"sync"
 	"fmt"
 	"go/token"
 	"go/types"
@@ -96,6 +97,7 @@ type interpreter struct {
 	cov                map[*ssa.Function]int  // functions of the code under test that were executed
 	cfg                *Config
 	ps                 *pathState
+	tmpl               *interpreter // post-init template (shared, read-only) or nil
 }
 
 type deferred struct {
@@ -110,7 +112,8 @@ type frame struct {
 	caller           *frame
 	fn               *ssa.Function
 	block, prevBlock *ssa.BasicBlock
-	env              map[ssa.Value]value // dynamic values of SSA variables
+	env              []value // dynamic values of SSA variables, indexed by info.slots
+	info             *fnInfo
 	locals           []value
 	defers           *deferred
 	result           value
@@ -130,12 +133,10 @@ func (fr *frame) get(key ssa.Value) value {
 	case *ssa.Const:
 		return constValue(key)
 	case *ssa.Global:
-		if r, ok := fr.i.globals[key]; ok {
-			return r
-		}
+		return fr.i.global(key)
 	}
-	if r, ok := fr.env[key]; ok {
-		return r
+	if k, ok := fr.info.slots[key]; ok {
+		return fr.env[k]
 	}
 	panic(fmt.Sprintf("get: no value for %T: %v", key, key.Name()))
 }
@@ -201,32 +202,32 @@ func visitInstr(fr *frame, instr ssa.Instruction) continuation {
 		// no-op
 
 	case *ssa.UnOp:
-		fr.env[instr] = unop(fr, instr, fr.get(instr.X))
+		fr.env[fr.slot(instr)] = unop(fr, instr, fr.get(instr.X))
 
 	case *ssa.BinOp:
-		fr.env[instr] = binop(instr.Op, instr.X.Type(), fr.get(instr.X), fr.get(instr.Y))
+		fr.env[fr.slot(instr)] = binop(instr.Op, instr.X.Type(), fr.get(instr.X), fr.get(instr.Y))
 
 	case *ssa.Call:
 		fn, args := prepareCall(fr, &instr.Call)
-		fr.env[instr] = call(fr.i, fr, instr.Pos(), fn, args)
+		fr.env[fr.slot(instr)] = call(fr.i, fr, instr.Pos(), fn, args)
 
 	case *ssa.ChangeInterface:
-		fr.env[instr] = fr.get(instr.X)
+		fr.env[fr.slot(instr)] = fr.get(instr.X)
 
 	case *ssa.ChangeType:
-		fr.env[instr] = fr.get(instr.X) // (can't fail)
+		fr.env[fr.slot(instr)] = fr.get(instr.X) // (can't fail)
 
 	case *ssa.Convert:
-		fr.env[instr] = conv(instr.Type(), instr.X.Type(), fr.get(instr.X))
+		fr.env[fr.slot(instr)] = conv(instr.Type(), instr.X.Type(), fr.get(instr.X))
 
 	case *ssa.SliceToArrayPointer:
-		fr.env[instr] = sliceToArrayPointer(instr.Type(), instr.X.Type(), fr.get(instr.X))
+		fr.env[fr.slot(instr)] = sliceToArrayPointer(instr.Type(), instr.X.Type(), fr.get(instr.X))
 
 	case *ssa.MakeInterface:
-		fr.env[instr] = iface{t: instr.X.Type(), v: fr.get(instr.X)}
+		fr.env[fr.slot(instr)] = iface{t: instr.X.Type(), v: fr.get(instr.X)}
 
 	case *ssa.Extract:
-		fr.env[instr] = fr.get(instr.Tuple).(tuple)[instr.Index]
+		fr.env[fr.slot(instr)] = fr.get(instr.Tuple).(tuple)[instr.Index]
 
 	case *ssa.Slice:
 		if fr.i.s.segMode {
@@ -236,13 +237,13 @@ func visitInstr(fr *frame, instr ssa.Instruction) continuation {
 						// spike: a freshly made constant-size []byte (make lowered to new [N]byte + slice)
 						cur := fr.i.s
 						n := cur.c64(int(at.Len()))
-						fr.env[instr] = cur.segSlice(cur.makeBytes(n, n), fr.get(instr.Low), fr.get(instr.High), fr.get(instr.Max))
+						fr.env[fr.slot(instr)] = cur.segSlice(cur.makeBytes(n, n), fr.get(instr.Low), fr.get(instr.High), fr.get(instr.Max))
 						break
 					}
 				}
 			}
 		}
-		fr.env[instr] = slice(fr.get(instr.X), fr.get(instr.Low), fr.get(instr.High), fr.get(instr.Max))
+		fr.env[fr.slot(instr)] = slice(fr.get(instr.X), fr.get(instr.Low), fr.get(instr.High), fr.get(instr.Max))
 
 	case *ssa.Return:
 		switch len(instr.Results) {
@@ -310,29 +311,29 @@ func visitInstr(fr *frame, instr ssa.Instruction) continuation {
 		fr.i.spawn(fn, args)
 
 	case *ssa.MakeChan:
-		fr.env[instr] = &gchan{cap: int(asInt64(fr.get(instr.Size)))}
+		fr.env[fr.slot(instr)] = &gchan{cap: int(asInt64(fr.get(instr.Size)))}
 
 	case *ssa.Alloc:
 		var addr *value
 		if instr.Heap {
 			// new
 			addr = new(value)
-			fr.env[instr] = addr
+			fr.env[fr.slot(instr)] = addr
 		} else {
 			// local
-			addr = fr.env[instr].(*value)
+			addr = fr.env[fr.slot(instr)].(*value)
 		}
 		*addr = zero(typeparams.MustDeref(instr.Type()))
 
 	case *ssa.MakeSlice:
 		if fr.i.s.segMode && isByteSlice(instr.Type()) {
 			cur := fr.i.s
-			fr.env[instr] = cur.makeBytes(cur.i64(fr.get(instr.Len)), cur.i64(fr.get(instr.Cap)))
+			fr.env[fr.slot(instr)] = cur.makeBytes(cur.i64(fr.get(instr.Len)), cur.i64(fr.get(instr.Cap)))
 			break
 		}
 		slice := fr.i.makeSlice(instr, fr.get(instr.Len), fr.get(instr.Cap))
 		if slice != nil || true {
-			fr.env[instr] = slice
+			fr.env[fr.slot(instr)] = slice
 			break
 		}
 		slice = make([]value, asInt64(fr.get(instr.Cap)))
@@ -340,7 +341,7 @@ func visitInstr(fr *frame, instr ssa.Instruction) continuation {
 		for i := range slice {
 			slice[i] = zero(tElt)
 		}
-		fr.env[instr] = slice[:asInt64(fr.get(instr.Len))]
+		fr.env[fr.slot(instr)] = slice[:asInt64(fr.get(instr.Len))]
 
 	case *ssa.MakeMap:
 		var reserve int64
@@ -350,19 +351,19 @@ func visitInstr(fr *frame, instr ssa.Instruction) continuation {
 		if !fitsInt(reserve, fr.i.sizes) {
 			panic(fmt.Sprintf("ssa.MakeMap.Reserve value %d does not fit in int", reserve))
 		}
-		fr.env[instr] = makeMap(instr.Type().Underlying().(*types.Map).Key(), reserve)
+		fr.env[fr.slot(instr)] = makeMap(instr.Type().Underlying().(*types.Map).Key(), reserve)
 
 	case *ssa.Range:
-		fr.env[instr] = rangeIter(fr, fr.get(instr.X), instr.X.Type())
+		fr.env[fr.slot(instr)] = rangeIter(fr, fr.get(instr.X), instr.X.Type())
 
 	case *ssa.Next:
-		fr.env[instr] = fr.get(instr.Iter).(iter).next()
+		fr.env[fr.slot(instr)] = fr.get(instr.Iter).(iter).next()
 
 	case *ssa.FieldAddr:
-		fr.env[instr] = &(*fr.get(instr.X).(*value)).(structure)[instr.Field]
+		fr.env[fr.slot(instr)] = &(*fr.get(instr.X).(*value)).(structure)[instr.Field]
 
 	case *ssa.Field:
-		fr.env[instr] = fr.get(instr.X).(structure)[instr.Field]
+		fr.env[fr.slot(instr)] = fr.get(instr.X).(structure)[instr.Field]
 
 	case *ssa.IndexAddr:
 		x := fr.get(instr.X)
@@ -372,12 +373,12 @@ func visitInstr(fr *frame, instr ssa.Instruction) continuation {
 			cur := fr.i.s
 			it := cur.i64(idx)
 			cur.segIndexCheck(x.len, it)
-			fr.env[instr] = bptr{x, it}
+			fr.env[fr.slot(instr)] = bptr{x, it}
 		case []value:
-			fr.env[instr] = &x[fr.i.index(idx, len(x))]
+			fr.env[fr.slot(instr)] = &x[fr.i.index(idx, len(x))]
 		case *value: // *array
 			a := (*x).(array)
-			fr.env[instr] = &a[fr.i.index(idx, len(a))]
+			fr.env[fr.slot(instr)] = &a[fr.i.index(idx, len(a))]
 		default:
 			panic(fmt.Sprintf("unexpected x type in IndexAddr: %T", x))
 		}
@@ -388,22 +389,22 @@ func visitInstr(fr *frame, instr ssa.Instruction) continuation {
 
 		switch x := x.(type) {
 		case array:
-			fr.env[instr] = x[fr.i.index(idx, len(x))]
+			fr.env[fr.slot(instr)] = x[fr.i.index(idx, len(x))]
 		case string:
-			fr.env[instr] = x[fr.i.index(idx, len(x))]
+			fr.env[fr.slot(instr)] = x[fr.i.index(idx, len(x))]
 		case symStr:
-			fr.env[instr] = x.b[fr.i.index(idx, len(x.b))]
+			fr.env[fr.slot(instr)] = x.b[fr.i.index(idx, len(x.b))]
 		case bstr:
 			cur := fr.i.s
 			it := cur.i64(idx)
 			cur.segIndexCheck(x.len, it)
-			fr.env[instr] = cur.byteVal(cur.bread(x.buf, x.ver, cur.add(x.off, it)))
+			fr.env[fr.slot(instr)] = cur.byteVal(cur.bread(x.buf, x.ver, cur.add(x.off, it)))
 		default:
 			panic(fmt.Sprintf("unexpected x type in Index: %T", x))
 		}
 
 	case *ssa.Lookup:
-		fr.env[instr] = lookup(instr, fr.get(instr.X), fr.get(instr.Index))
+		fr.env[fr.slot(instr)] = lookup(instr, fr.get(instr.X), fr.get(instr.Index))
 
 	case *ssa.MapUpdate:
 		m := fr.get(instr.Map)
@@ -419,20 +420,20 @@ func visitInstr(fr *frame, instr ssa.Instruction) continuation {
 		}
 
 	case *ssa.TypeAssert:
-		fr.env[instr] = typeAssert(fr.i, instr, fr.get(instr.X).(iface))
+		fr.env[fr.slot(instr)] = typeAssert(fr.i, instr, fr.get(instr.X).(iface))
 
 	case *ssa.MakeClosure:
 		var bindings []value
 		for _, binding := range instr.Bindings {
 			bindings = append(bindings, fr.get(binding))
 		}
-		fr.env[instr] = &closure{instr.Fn.(*ssa.Function), bindings}
+		fr.env[fr.slot(instr)] = &closure{instr.Fn.(*ssa.Function), bindings}
 
 	case *ssa.Phi:
 		log.Fatal("unreachable") // phis are processed at block entry
 
 	case *ssa.Select:
-		fr.env[instr] = fr.i.doSelect(fr, instr)
+		fr.env[fr.slot(instr)] = fr.i.doSelect(fr, instr)
 
 	default:
 		panic(fmt.Sprintf("unexpected instruction: %T", instr))
@@ -556,18 +557,19 @@ func callSSA(i *interpreter, caller *frame, callpos token.Pos, fn *ssa.Function,
 		panic("interp requires ssa.BuilderMode to include InstantiateGenerics to execute generics")
 	}
 
-	fr.env = make(map[ssa.Value]value)
+	fr.info = infoOf(fn)
+	fr.env = make([]value, fr.info.n)
 	fr.block = fn.Blocks[0]
 	fr.locals = make([]value, len(fn.Locals))
 	for i, l := range fn.Locals {
 		fr.locals[i] = zero(typeparams.MustDeref(l.Type()))
-		fr.env[l] = &fr.locals[i]
+		fr.env[fr.slot(l)] = &fr.locals[i]
 	}
 	for i, p := range fn.Params {
-		fr.env[p] = args[i]
+		fr.env[fr.slot(p)] = args[i]
 	}
 	for i, fv := range fn.FreeVars {
-		fr.env[fv] = env[i]
+		fr.env[fr.slot(fv)] = env[i]
 	}
 	for fr.block != nil {
 		runFrame(fr)
@@ -671,7 +673,7 @@ func executePhis(fr *frame) []ssa.Instruction {
 			fr.phitemps = append(fr.phitemps, fr.get(phi.Edges[predIndex]))
 		}
 		for i, phi := range phis {
-			fr.env[phi.(*ssa.Phi)] = fr.phitemps[i]
+			fr.env[fr.slot(phi.(*ssa.Phi))] = fr.phitemps[i]
 		}
 	}
 	return nonPhis
@@ -799,3 +801,73 @@ func isByteSlice(t types.Type) bool {
 	b, ok := sl.Elem().Underlying().(*types.Basic)
 	return ok && b.Kind() == types.Uint8
 }
+
+// global returns the cell of a package-level variable, creating it on first use.
+// Non-target (stdlib, third-party) globals start from the value they had after
+// package initialisation in the shared template interpreter (top-level copy);
+// target globals start from zero and are initialised by re-running the target
+// packages' init functions on every path.
+func (i *interpreter) global(g *ssa.Global) *value {
+	if r, ok := i.globals[g]; ok {
+		return r
+	}
+	if i.tmpl != nil && (g.Pkg == nil || !i.cfg.isTargetInit(g.Pkg.Pkg.Path())) {
+		if t, ok := i.tmpl.globals[g]; ok {
+			cell := *t
+			i.globals[g] = &cell
+			return &cell
+		}
+	}
+	cell := zero(typeparams.MustDeref(g.Type()))
+	i.globals[g] = &cell
+	return &cell
+}
+
+// fnInfo assigns a dense slot number to every SSA value of a function, so that
+// a frame's environment is a slice instead of a map.
+type fnInfo struct {
+	slots map[ssa.Value]int
+	n     int
+}
+
+var fnInfos sync.Map // *ssa.Function -> *fnInfo
+
+func infoOf(fn *ssa.Function) *fnInfo {
+	if v, ok := fnInfos.Load(fn); ok {
+		return v.(*fnInfo)
+	}
+	inf := &fnInfo{slots: map[ssa.Value]int{}}
+	add := func(v ssa.Value) {
+		if _, ok := inf.slots[v]; !ok {
+			inf.slots[v] = inf.n
+			inf.n++
+		}
+	}
+	for _, p := range fn.Params {
+		add(p)
+	}
+	for _, fv := range fn.FreeVars {
+		add(fv)
+	}
+	for _, l := range fn.Locals {
+		add(l)
+	}
+	for _, b := range fn.Blocks {
+		for _, ins := range b.Instrs {
+			if v, ok := ins.(ssa.Value); ok {
+				add(v)
+			}
+		}
+	}
+	if fn.Recover != nil {
+		for _, ins := range fn.Recover.Instrs {
+			if v, ok := ins.(ssa.Value); ok {
+				add(v)
+			}
+		}
+	}
+	v, _ := fnInfos.LoadOrStore(fn, inf)
+	return v.(*fnInfo)
+}
+
+func (fr *frame) slot(v ssa.Value) int { return fr.info.slots[v] }
